@@ -3,12 +3,16 @@ C08 — property theorems.
 
 Part 1 (Wind): `winders` / `common-tail` / `do-wind` / `dynamic-wind` / the call/cc wrapper of parameters.scm.
 Part 2 (Model): the stack VM with lazily captured continuation marks and the handler search of vm.rs.
+Part 3 (Control): dynamic-wind composed with the handler mechanism, as parameters.scm writes it.
+Part 4 (Marks): histories of evaluations — what a continuation keeps alive (instruction lifetime).
 `GenCode.lean` is regenerated from /repo on every run; the obligations `code_*` (by `decide`) stop checking when the
 code changes back (e.g. `equal?` in `common-tail`).
 -/
 import SteelVerif.C08.LemmasWind
 import SteelVerif.C08.LemmasRun
 import SteelVerif.C08.LemmasProgress
+import SteelVerif.C08.LemmasMarks
+import SteelVerif.C08.Control
 import SteelVerif.C08.GenCode
 namespace SteelVerif.C08
 open Wind Model
@@ -318,6 +322,212 @@ theorem invoke_never_panics_code (stack store : List V) (ip : Nat) (ops : List O
   invoke_never_panics GenCode.codeCfg code_mark_discipline.1 code_mark_discipline.2.1 stack store ip ops vm hs hrun
     m hm v w
 
+/-! ## Part 1b: escapes, re-entries and generators (corollaries of `wind_exactly_once` for all winders) -/
+
+/-- Escaping from inside extents `A'` to a continuation captured outside all of them: the `after` thunks of `A'`
+run innermost first, each once, and nothing else. -/
+theorem escape_after_innermost_first (A' C : Winders) (t : List Ev) :
+    doWind (cmpOf GenCode.codeCmp) C ⟨A' ++ C, t⟩ = ⟨C, t ++ A'.map Ev.after⟩ := by
+  simpa using wind_exactly_once A' [] C t (by simp)
+
+/-- RE-ENTRY FROM OUTSIDE: invoking, at winders `C`, a continuation captured inside the extents `B'` (within
+`C`) runs the `before` thunks of `B'` OUTERMOST FIRST (`B'` lists the innermost first), each once, nothing else,
+and ends inside all of them. -/
+theorem reentry_before_outermost_first (B' C : Winders) (t : List Ev) :
+    doWind (cmpOf GenCode.codeCmp) (B' ++ C) ⟨C, t⟩ = ⟨B' ++ C, t ++ B'.reverse.map Ev.before⟩ := by
+  simpa using wind_exactly_once [] B' C t (by simp)
+
+/-- `n`-fold application. -/
+def times {α} (f : α → α) : Nat → α → α
+  | 0, x => x
+  | n + 1, x => times f n (f x)
+
+/-- One round of a generator / coroutine pair: the consumer (inside extents `Q'`) resumes the producer (whose
+continuation was captured inside extents `P'`), the producer yields back to the consumer; `C` is common. -/
+def roundTrip (P' Q' C : Winders) (s : WState) : WState :=
+  doWind (cmpOf GenCode.codeCmp) (Q' ++ C) (doWind (cmpOf GenCode.codeCmp) (P' ++ C) s)
+
+/-- GENERATORS: a continuation re-entered in a loop.  For every number `n` of rounds, every round runs exactly
+`after Q'` (innermost first), `before P'` (outermost first), `after P'`, `before Q'` — the thunks of an extent
+run once per crossing, never accumulate, never get skipped on later rounds — and the consumer is back in its own
+extents. -/
+theorem generator_round_trips (P' Q' C : Winders) (hdis : ∀ b ∈ P', ∀ a ∈ Q', b.id ≠ a.id) :
+    ∀ (n : Nat) (t : List Ev),
+      times (roundTrip P' Q' C) n ⟨Q' ++ C, t⟩ =
+        ⟨Q' ++ C, t ++ (List.replicate n (Q'.map Ev.after ++ P'.reverse.map Ev.before ++
+                                            (P'.map Ev.after ++ Q'.reverse.map Ev.before))).flatten⟩
+  | 0, t => by simp [times]
+  | n + 1, t => by
+      have h1 := wind_exactly_once Q' P' C t hdis
+      have h2 := wind_exactly_once P' Q' C (t ++ Q'.map Ev.after ++ P'.reverse.map Ev.before)
+        (fun b hb a ha h => hdis a ha b hb h.symm)
+      have hstep : roundTrip P' Q' C ⟨Q' ++ C, t⟩ =
+          ⟨Q' ++ C, t ++ (Q'.map Ev.after ++ P'.reverse.map Ev.before ++
+                          (P'.map Ev.after ++ Q'.reverse.map Ev.before))⟩ := by
+        unfold roundTrip
+        rw [h1, h2]
+        simp [List.append_assoc]
+      simp only [times, hstep, generator_round_trips P' Q' C hdis n, List.replicate_succ, List.flatten_cons,
+        List.append_assoc]
+
+/-! ## Part 3: dynamic-wind composed with the handler mechanism and with escaping continuations -/
+
+/-- parameters.scm: the exception handler of `dynamic-wind` leaves the extent (pops `winders`, runs `out`) only if
+the extent's entry is still the head of `winders` — the `whenHead` of `Control.compile`. -/
+theorem code_wind_handler_guarded : GenCode.windHandlerGuarded = true := by decide
+
+theorem codeCmp_refl (a : Entry) : cmpOf GenCode.codeCmp a a = true := by
+  rw [code_compares_extents_by_identity]; exact eqCmp_refl a
+
+/-- `wind_handler_compose`: for EVERY program of notes, errors, user handlers, `dynamic-wind`s, `call/cc`
+receivers and invocations of their continuations from inside (escapes), the code of parameters.scm —
+`dynamic-wind` written with `call-with-exception-handler`, a guarded pop of `winders` and a re-raise; the call/cc
+wrapper running `do-wind save` (with `common-tail`) before the primitive jump — run under the VM's rules (an
+error goes to the nearest handler frame, which runs uninstalled; a jump drops the frames, handler frames
+included) produces exactly the events the property promises: `before e`, the body, `after e` once per entered
+extent in nesting order whether the body returns, raises or is left by an escape; a handler's body runs after the
+`after` thunks of every extent the error left and never because of an escape; `winders` ends as it started. -/
+theorem wind_handler_compose (p : Control.Prog) (s : WState) :
+    (Control.compile p).run (cmpOf GenCode.codeCmp) [] s =
+      ({ winders := s.winders, trace := s.trace ++ (Control.expected [] p).1 }, (Control.expected [] p).2) :=
+  Control.run_closed_eq_expected codeCmp_refl p s
+
+/-- AN ERROR ESCAPING THROUGH SEVERAL EXTENTS (`wind_exactly_once` ∘ `handler_nearest`): with `es = [e₁ … eₙ]`
+nested outermost first around the raise and a handler `h` around all of them, the trace is: the `before`s on the
+way in, then `after eₙ, …, after e₁` — innermost first, each once —, and ONLY THEN the handler body; what leaves
+the whole expression is up to the handler body alone. -/
+theorem error_through_extents (es : List Entry) (h : Control.Prog) (s : WState) :
+    (Control.compile (.handle h (Control.nest es .raise))).run (cmpOf GenCode.codeCmp) [] s =
+      ({ winders := s.winders,
+         trace := s.trace ++ (es.map Ev.before ++ es.reverse.map Ev.after ++ (Control.expected [] h).1) },
+       (Control.expected [] h).2) := by
+  rw [wind_handler_compose]
+  simp [Control.expected, Control.expected_nest_raise]
+
+/-- A CONTINUATION CROSSING EXTENTS AND HANDLERS TOGETHER: for every stack of layers `ls` — extents and handler
+frames in any interleaving, the handlers with any bodies — between a receiver and the invocation of its
+continuation, the escape runs the `after` thunk of every extent, innermost first, each once; NO handler body runs;
+no error results; `winders` is what it was at the capture. -/
+theorem escape_through_extents_and_handlers (ls : List Control.Layer) (s : WState) :
+    (Control.compile (.callcc (Control.wrap ls (.throw 0)))).run (cmpOf GenCode.codeCmp) [] s =
+      ({ winders := s.winders,
+         trace := s.trace ++ ((Control.extentsOf ls).map Ev.before ++ (Control.extentsOf ls).reverse.map Ev.after) },
+       .ok) := by
+  rw [wind_handler_compose]
+  simp [Control.expected, Control.expected_wrap_throw]
+
+/-! ## Part 2b: a handler's own error, and re-entry in a loop, on the VM model -/
+
+/-- vm.rs: BOTH unwind loops (top-level evaluation / nested instance of a native callback) uninstall the handler
+from the frame before the handler runs on it (`handler.take()`, or an explicit `handler = None` before the frame
+is pushed back) — what `Model.unwind` does (`handler := none`).  Read from vm.rs on every run. -/
+theorem code_handler_uninstalled : GenCode.handlerUninstalled = true := by decide
+
+/-- `handler_error_goes_to_next_handler`: the handler of frame `f` runs with `f`'s handler uninstalled, so an error
+raised while it runs — from any depth of handler-less frames `pre2` above it, in any later state — is delivered
+to the NEXT enclosing handler frame `g`, never to `f`'s handler again. -/
+theorem handler_error_goes_to_next_handler (cfg : Cfg) (hcfg : cfg.dummyFrame = false) (err err' : V) (vm : VM)
+    (pre : List Frame) (f : Frame) (mid : List Frame) (g : Frame) (below2 : List Frame) (h h2 : Nat)
+    (hpre : ∀ x ∈ pre, x.handler = none) (hf : f.handler = some h)
+    (hmid : ∀ x ∈ mid, x.handler = none) (hg : g.handler = some h2)
+    (hs : Model.Sorted vm.stack (pre ++ f :: (mid ++ g :: below2))) :
+    ∃ r, unwind cfg err vm (pre ++ f :: (mid ++ g :: below2)) = some r ∧
+      r.frames = { f with handler := none, fn := h, mark := none } :: (mid ++ g :: below2) ∧
+      ∀ (vm' : VM) (pre2 : List Frame), (∀ x ∈ pre2, x.handler = none) →
+        Model.Sorted vm'.stack (pre2 ++ r.frames) →
+        ∃ r2, unwind cfg err' vm' (pre2 ++ r.frames) = some r2 ∧
+          r2.frames = { g with handler := none, fn := h2, mark := none } :: below2 ∧
+          r2.stack = vm'.stack.take g.sp ++ [err'] := by
+  obtain ⟨r, h1, _, _, _, _, h6⟩ := handler_nearest cfg hcfg err vm pre f (mid ++ g :: below2) h hpre hf hs
+  refine ⟨r, h1, h6, ?_⟩
+  intro vm' pre2 hpre2 hs'
+  rw [h6] at hs' ⊢
+  have hassoc : pre2 ++ { f with handler := none, fn := h, mark := none } :: (mid ++ g :: below2) =
+      (pre2 ++ { f with handler := none, fn := h, mark := none } :: mid) ++ g :: below2 := by simp
+  rw [hassoc] at hs' ⊢
+  obtain ⟨r2, k1, k2, _, _, _, k6⟩ := handler_nearest cfg hcfg err' vm'
+    (pre2 ++ { f with handler := none, fn := h, mark := none } :: mid) g below2 h2
+    (by
+      intro x hx
+      rcases List.mem_append.mp hx with hx | hx
+      · exact hpre2 x hx
+      · rcases List.mem_cons.mp hx with rfl | hx
+        · rfl
+        · exact hmid x hx) hg hs'
+  exact ⟨r2, k1, k6, k2⟩
+
+/-- `generator_resume_same`: a continuation re-entered in a loop.  After ANY operations following the capture, an
+invocation, ANY further operations (including further invocations of this or other continuations, error
+unwinds, captures), and another invocation: the pending work resumed is the same both times — the frames, the
+operand stack of the capture with the passed value on top, the resume address, the frame base. -/
+theorem generator_resume_same {cfg vm0 ops₁ fn kv ops₂ vmc vm2} (ops₃ : List Op) (vm3 vm4 vm5 : VM)
+    (h : Captured cfg vm0 ops₁ fn kv ops₂ vmc vm2) (v v' : V) (w s w' s' : Bool)
+    (h1 : exec cfg vm2 (.invoke vmc.marks.length v w s) = some vm3)
+    (h2 : Model.run cfg vm3 ops₃ = some vm4)
+    (h3 : exec cfg vm4 (.invoke vmc.marks.length v' w' s') = some vm5) :
+    vm5.frames = vm3.frames ∧ vm5.frames = vmc.frames ∧ vm5.stack = vmc.stack ++ [v'] ∧
+    vm3.stack = vmc.stack ++ [v] ∧ vm5.ip = vm3.ip ∧ vm5.sp = vm3.sp := by
+  obtain ⟨a1, a2, a3, a4, _⟩ := invoke_restores_pending_work h v w s vm3 h1
+  have h' : Captured cfg vm0 ops₁ fn kv (ops₂ ++ (.invoke vmc.marks.length v w s :: ops₃)) vmc vm4 := by
+    refine ⟨h.start, h.before, ?_⟩
+    have ha := h.after
+    rw [show Op.capture fn kv :: (ops₂ ++ (.invoke vmc.marks.length v w s :: ops₃)) =
+      (Op.capture fn kv :: ops₂) ++ (.invoke vmc.marks.length v w s :: ops₃) by simp]
+    rw [run_append, ha]
+    simp only [Option.bind_some, Model.run, h1, h2]
+  obtain ⟨b1, b2, b3, b4, _⟩ := invoke_restores_pending_work h' v' w' s' vm5 h3
+  exact ⟨b1.trans a1.symm, b1, b2, a2, b3.trans a3.symm, b4.trans a4.symm⟩
+
+/-! ## Part 4: histories of evaluations — what a continuation keeps alive -/
+
+/-- vm.rs: `execute` publishes the instructions of its form in `current_root` (restoring the enclosing value when it
+returns), the three constructors of continuations copy it into `root`, closing an open mark copies `open.root`, and
+reinstating a closed continuation makes its root the current one.  Read from vm.rs on every run. -/
+theorem code_continuation_keeps_root : GenCode.continuationKeepsRoot = true := by decide
+
+/-- `later_evaluation_invoke_safe`: for EVERY history — any number of evaluations on one engine, each any sequence
+of calls, returns, tail calls, captures, error unwinds and invocations of ANY continuation captured so far, by the
+evaluation that captured it or by any later one, on the open or the closed path — no raw instruction pointer of
+the running control state (the instruction register, the return address of any frame) points into a top-level
+form whose instructions may have been freed: it points into a function body, or into the form that
+`current_root` holds or that the evaluation in progress owns. -/
+theorem later_evaluation_invoke_safe (ops : List Marks.Op) (s : Marks.St)
+    (h : Marks.run true Marks.init ops = some s) : Marks.Safe s :=
+  Marks.safe_of_inv (Marks.run_inv ops Marks.init_inv h)
+
+/-- … for the code as it is. -/
+theorem later_evaluation_invoke_safe_code (ops : List Marks.Op) (s : Marks.St)
+    (h : Marks.run GenCode.continuationKeepsRoot Marks.init ops = some s) : Marks.Safe s :=
+  later_evaluation_invoke_safe ops s (code_continuation_keeps_root ▸ h)
+
+/-- The step itself: reinstating (closed path) a continuation `c` in any reachable state — in particular from a
+LATER evaluation than the one that captured it — makes `c.root` the current root, and the resume address and every
+return address of the reinstated frames point into a function body or into exactly that form. -/
+theorem cross_evaluation_invoke_installs_root (ops : List Marks.Op) (s s' : Marks.St) (m : Nat) (c : Marks.Cont)
+    (h : Marks.run true Marks.init ops = some s) (hc : s.conts[m]? = some c)
+    (hinv : Marks.exec true s (.invoke m false) = some s') :
+    s'.current = c.root ∧ c.root.isSome = true ∧ s'.reg = c.reg ∧ s'.frames = c.frames ∧
+    Marks.OkP c.root s'.reg ∧ (∀ f ∈ s'.frames, Marks.OkP c.root f.ret) ∧ Marks.Safe s' := by
+  have hi := Marks.run_inv ops Marks.init_inv h
+  have hi' := Marks.exec_inv hi _ hinv
+  obtain ⟨k1, k2, k3⟩ := hi.conts c (List.mem_of_getElem? hc)
+  simp only [Marks.exec, hc] at hinv
+  split at hinv
+  · cases hinv
+  · simp only [Bool.false_eq_true, if_false, k1, if_true, Option.some.injEq] at hinv
+    subst hinv
+    exact ⟨rfl, k1, rfl, rfl, k2, fun f hf => (k3 f hf).1, Marks.safe_of_inv hi'⟩
+
+/-- Without the keep-alive the statement is false (finding K08h, fixed by 2efff3d7): form 0 captures a
+continuation in argument position and ends; form 1 invokes it: the VM resumes in form 0's instructions, which
+nothing holds (`owner = 1`, no current root).  With the keep-alive `current_root` holds form 0. -/
+theorem dangling_root_witness :
+    (Marks.run false Marks.init [.beginEval, .capture, .ret, .endEval, .beginEval, .call, .invoke 0 false]).map
+        (fun s => (s.reg, s.owner, s.current)) = some (some 0, some 1, none) ∧
+    (Marks.run true Marks.init [.beginEval, .capture, .ret, .endEval, .beginEval, .call, .invoke 0 false]).map
+        (fun s => (s.reg, s.owner, s.current)) = some (some 0, some 1, some 0) := by
+  decide
+
 /-! ## Non-vacuity -/
 
 /-- A run in which a continuation is captured in argument position with a pending temporary, the receiver returns
@@ -360,6 +570,77 @@ example :
 example :
     Wind.run (.wind ⟨1, 0, 0⟩ (.seq (.note 1) (.wind ⟨2, 0, 0⟩ (.seq .raise (.note 2))))) ⟨[], []⟩ =
       (⟨[], [.before ⟨1, 0, 0⟩, .note 1, .before ⟨2, 0, 0⟩, .after ⟨2, 0, 0⟩, .after ⟨1, 0, 0⟩]⟩, true) := by
+  decide
+
+/-- `escape_after_innermost_first` / `reentry_before_outermost_first`: two extents. -/
+example :
+    doWind (cmpOf GenCode.codeCmp) [⟨0, 9, 9⟩] ⟨[⟨3, 1, 2⟩, ⟨2, 1, 2⟩, ⟨0, 9, 9⟩], []⟩ =
+      ⟨[⟨0, 9, 9⟩], [.after ⟨3, 1, 2⟩, .after ⟨2, 1, 2⟩]⟩ ∧
+    doWind (cmpOf GenCode.codeCmp) [⟨3, 1, 2⟩, ⟨2, 1, 2⟩, ⟨0, 9, 9⟩] ⟨[⟨0, 9, 9⟩], []⟩ =
+      ⟨[⟨3, 1, 2⟩, ⟨2, 1, 2⟩, ⟨0, 9, 9⟩], [.before ⟨2, 1, 2⟩, .before ⟨3, 1, 2⟩]⟩ := by
+  decide
+
+/-- `generator_round_trips`: two rounds between a consumer inside extent 5 and a producer inside extent 7. -/
+example :
+    times (roundTrip [⟨7, 1, 2⟩] [⟨5, 3, 4⟩] [⟨0, 9, 9⟩]) 2 ⟨[⟨5, 3, 4⟩, ⟨0, 9, 9⟩], []⟩ =
+      ⟨[⟨5, 3, 4⟩, ⟨0, 9, 9⟩],
+       [.after ⟨5, 3, 4⟩, .before ⟨7, 1, 2⟩, .after ⟨7, 1, 2⟩, .before ⟨5, 3, 4⟩,
+        .after ⟨5, 3, 4⟩, .before ⟨7, 1, 2⟩, .after ⟨7, 1, 2⟩, .before ⟨5, 3, 4⟩]⟩ := by
+  decide
+
+/-- `error_through_extents`: an error inside three extents, caught by a handler around them whose body notes 7:
+the `after`s run innermost first, then the handler body; no error leaves. -/
+example :
+    (Control.compile (.handle (.note 7) (Control.nest [⟨1, 0, 0⟩, ⟨2, 0, 0⟩, ⟨3, 0, 0⟩] .raise))).run
+        (cmpOf GenCode.codeCmp) [] ⟨[], []⟩ =
+      (⟨[], [.before ⟨1, 0, 0⟩, .before ⟨2, 0, 0⟩, .before ⟨3, 0, 0⟩,
+             .after ⟨3, 0, 0⟩, .after ⟨2, 0, 0⟩, .after ⟨1, 0, 0⟩, .note 7]⟩, .ok) := by
+  decide
+
+/-- `wind_handler_compose`: a handler INSIDE an extent that re-raises, a handler outside that returns. -/
+example :
+    (Control.compile (.handle (.note 9)
+        (.wind ⟨1, 0, 0⟩ (.handle (.seq (.note 8) .raise) (.wind ⟨2, 0, 0⟩ .raise))))).run
+        (cmpOf GenCode.codeCmp) [] ⟨[], []⟩ =
+      (⟨[], [.before ⟨1, 0, 0⟩, .before ⟨2, 0, 0⟩, .after ⟨2, 0, 0⟩, .note 8, .after ⟨1, 0, 0⟩, .note 9]⟩, .ok) := by
+  decide
+
+/-- `escape_through_extents_and_handlers`: extent 1, a handler, extent 2, another handler between the receiver and
+the invocation; the code after the receiver (note 5) runs next; neither handler body (notes 8, 9) runs.  And an
+escape to the OUTER of two receivers from inside an extent entered between them. -/
+example :
+    (Control.compile (.seq (.callcc (Control.wrap [.wind ⟨1, 0, 0⟩, .handler (.note 8), .wind ⟨2, 0, 0⟩, .handler (.note 9)]
+        (.seq (.note 4) (.throw 0)))) (.note 5))).run (cmpOf GenCode.codeCmp) [] ⟨[], []⟩ =
+      (⟨[], [.before ⟨1, 0, 0⟩, .before ⟨2, 0, 0⟩, .note 4, .after ⟨2, 0, 0⟩, .after ⟨1, 0, 0⟩, .note 5]⟩, .ok) ∧
+    (Control.compile (.callcc (.wind ⟨1, 0, 0⟩ (.callcc (.wind ⟨2, 0, 0⟩ (.seq (.throw 0) (.note 6))))))).run
+        (cmpOf GenCode.codeCmp) [] ⟨[⟨0, 9, 9⟩], []⟩ =
+      (⟨[⟨0, 9, 9⟩], [.before ⟨1, 0, 0⟩, .before ⟨2, 0, 0⟩, .after ⟨2, 0, 0⟩, .after ⟨1, 0, 0⟩]⟩, .ok) := by
+  decide
+
+/-- `handler_error_goes_to_next_handler`: two handler frames; the inner handler (91) raises from a frame it
+called: the outer handler (90) runs, on the outer frame. -/
+example :
+    (Model.run ⟨true, true, false⟩ (init [4] [] 0) [.call 0 1 (some 90), .step [5] 2, .call 0 2 (some 91),
+        .call 0 3 none, .raise 13, .call 0 4 none, .raise 14]).map
+      (fun r => (r.stack, r.frames.map (fun f => (f.fn, f.handler)), r.sp)) =
+      some ([4, 14], [(90, none)], 1) := by
+  decide
+
+/-- `generator_resume_same`: a continuation captured with a pending temporary is invoked, the resumed code runs
+on (temporaries change, a frame is pushed, another continuation is captured), and it is invoked again. -/
+example :
+    (Model.run ⟨true, true, false⟩ (init [] [0] 0) [.call 0 5 none, .step [1] 3, .capture 6 77, .step [77, 2] 1, .ret,
+        .invoke 0 8 true true, .step [1, 8, 9] 6, .call 1 7 none, .capture 8 78,
+        .invoke 0 10 true true]).map (fun r => (r.stack, r.frames.map (·.fn), r.ip)) = some ([1, 10], [5], 4) := by
+  decide
+
+/-- `later_evaluation_invoke_safe`: three evaluations; the second one dies inside a receiver (all frames unwound),
+the third invokes both stored continuations (closed path), the second invocation from inside a call. -/
+example :
+    (Marks.run true Marks.init [.beginEval, .call, .capture, .ret, .ret, .endEval,
+        .beginEval, .capture, .call, .endEval,
+        .beginEval, .call, .invoke 1 false, .call, .invoke 0 false]).map
+      (fun s => (s.reg, s.frames.map (·.ret), s.owner, s.current)) = some (none, [some 0], some 2, some 0) := by
   decide
 
 end SteelVerif.C08
